@@ -178,8 +178,37 @@ def sess(t):
     return '|'.join(out)
 
 
+def route(t):
+    """text routes of a private key: route <entry> wif|bip38 <string> <cp> <net> <password as utf-8 hex | ->"""
+    entry, kind, s, cp, net, pwhex = t
+    kw = dict(network=net, compressed=cp == '1')
+    if kind == 'bip38':
+        kw['password'] = unhx(pwhex).decode('utf-8')
+        if entry == 'HDKey':
+            kw['witness_type'] = 'legacy'
+    elif kind != 'wif':
+        return 'BADREQ'
+    try:
+        key = HDKey(s, **kw) if entry in ('HDKey', 'HDKeyD') else Key(s, **kw)      # HDKeyD: default witness type
+    except Exception:
+        return 'ERR'
+    pt = field(lambda: key.public_point())
+    x, y = (str(pt[0]), str(pt[1])) if isinstance(pt, tuple) else ('ERR', 'ERR')
+    return ' '.join([
+        'OK', '1' if key.is_private else '0',
+        str(key.secret) if key.is_private else '-',
+        field(lambda: key.public_hex or '-'),
+        field(lambda: key.public_compressed_hex or '-'),
+        field(lambda: key.public_uncompressed_hex or '-'),
+        x, y,
+        field(lambda: key.address() or '-'),
+        field(lambda: key.address(script_type='p2pkh', encoding='base58') or '-')])
+
+
 def dispatch(t):
     k = t[0]
+    if k == 'route':
+        return route(t[1:]) if len(t) == 7 else 'BADREQ'
     if k == 'addrx':
         return addrx(t[1:])
     if k == 'sess':
